@@ -1194,6 +1194,18 @@ func (m *Machine) call(x *ssa.Call, state map[string]Vec) {
 		// callee sees the caller's memory for cells with the same names
 		sub.mem[nil] = state
 		sub.runWithState(state)
+		// comparisons made by the callee on the caller's bits are the caller's comparisons too
+		// (a test moved into a predicate method such as IsFragmentationUnit)
+		if len(sub.Cmps) > 0 {
+			if m.Cmps == nil {
+				m.Cmps = map[ssa.Value]CmpInfo{}
+			}
+			for k, ci := range sub.Cmps {
+				if _, dup := m.Cmps[k]; !dup {
+					m.Cmps[k] = ci
+				}
+			}
+		}
 		// single-valued result: mux over returns is not attempted; require all returns equal
 		var res Vec
 		okRes := true
